@@ -4,4 +4,5 @@ CONSTANTS
   BPW = 2
   NibSet = {0}
   Tops = {0}
+  Seconds = {0}
 CHECK_DEADLOCK FALSE
